@@ -1,5 +1,7 @@
 import Driver.Filters
 import Driver.Geom
+import Driver.Eval
+import Driver.Decision
 /-
   oxidriver: line protocol over the executable model.
   One request per line: `<op> <arg> ...`; one answer line per request.
@@ -7,7 +9,7 @@ import Driver.Geom
 -/
 namespace Driver
 
-def handlers : List (List String → Option String) := [handleFilters, handleGeom]
+def handlers : List (List String → Option String) := [handleFilters, handleGeom, handleEval, handleDecision]
 
 def handle (args : List String) : String :=
   match handlers.findSome? (fun h => h args) with
